@@ -202,10 +202,11 @@ class Check:
             json.dump({"multi": [s["desc"] for s in scns]}, f)
         return p
 
-    def confirm(self, drv, prop, specdir, tla, cfg, cands, sig_fn, extra=()):
-        """cands: list of (sig, reject, scenario). Re-run one (smallest)
-        scenario per signature together in a fresh driver process; report those
-        rejected again with the same signature."""
+    def confirm(self, drv, prop, specdir, tla, cfg, cands, sig_fn, extra=(), tries=1):
+        """cands: list of (sig, reject, scenario). Re-run the smallest scenario of each signature in a
+        fresh driver process; report those rejected again with the same signature. tries > 1 (for
+        observations that depend on the goroutine schedule): up to that many of the rejected scenarios
+        of a signature are re-run, smallest first, and the first that is rejected again is reported."""
         if not cands:
             return
         per = {}
@@ -214,10 +215,20 @@ class Check:
         chosen = []
         for sig, lst in sorted(per.items()):
             lst.sort(key=lambda x: x[1]["nev"])
-            chosen.append((sig, lst[0][0], lst[0][1], len(lst)))
+            seen_ids = set()
+            for r, scn in lst:
+                if scn["id"] in seen_ids:
+                    continue
+                seen_ids.add(scn["id"])
+                chosen.append((sig, r, scn, len(lst)))
+                if len(seen_ids) >= tries:
+                    break
         if self.replay:
+            done = set()
             for sig, r, scn, n in chosen:
-                self.report(sig, self.replay, json.dumps(r))
+                if sig not in done:
+                    done.add(sig)
+                    self.report(sig, self.replay, json.dumps(r))
             return
         mp = self.write_multi([c[2] for c in chosen])
         td2 = self.drive(drv, prop, sub="confirm", replay=mp, shards=min(16, len(chosen)), extra=extra)
@@ -227,13 +238,18 @@ class Check:
         for r in rej2:
             s2 = idx2[r["scn"]]
             again.setdefault(s2["ord"], []).append((sig_fn(r, s2), r))
+        confirmed = set()
         for i, (sig, r, scn, n) in enumerate(chosen):
+            if sig in confirmed:
+                continue
             hits = [x for x in again.get(i, []) if x[0] == sig]
             if hits:
+                confirmed.add(sig)
                 path = self.write_replay(scn, tag=re.sub(r"[^A-Za-z0-9_.-]+", "_", sig))
                 self.report(sig, path, "%d scenario(s); first: %s" % (n, json.dumps(hits[0][1])))
-            else:
-                self.notes.append("unconfirmed rejection %s (scenario %d) - not reported" % (sig, scn["id"]))
+        for sig in sorted({c[0] for c in chosen} - confirmed):
+            self.notes.append("unconfirmed rejection %s (%d scenario(s) re-run) - not reported" % (
+                sig, sum(1 for c in chosen if c[0] == sig)))
 
     def write_replay(self, scn, tag=None):
         name = "replay-%s-seed%d-%s.json" % (self.tier, self.seed, tag if tag is not None else scn["id"])
